@@ -12,7 +12,7 @@ fn prog(body: &str) -> String {
     format!("{}{}\n", PRELUDE, body)
 }
 
-const ARGS: &[&str] = &["", "x", "E1()", "EF()", "t.k", "...", "x, \"msg\"", "E1(), \"msg\"", "x, E1()", "EI(1), EI(2), EI(3)", "m.k", "x == 3, \"m\" .. x", "(E1())", "nil, E1()", "false"];
+const ARGS: &[&str] = &["m.k, E1(), m.j", "t[EI(1)], EI(2), t[EI(3)]", "{EI(1)}, EI(2), {EI(3)}", "EI(1), m.k, EI(2), m.j", "m.k, m.j", "-m, E1(), m + 1", "", "x", "E1()", "EF()", "t.k", "...", "x, \"msg\"", "E1(), \"msg\"", "x, E1()", "EI(1), EI(2), EI(3)", "m.k", "x == 3, \"m\" .. x", "(E1())", "nil, E1()", "false"];
 const PURE_ARGS: &[&str] = &["", "x", "x, \"msg\"", "x == 3", "true, \"a\" .. \"b\"", "...", "nil", "false"];
 
 const CALL_CONTEXTS: &[&str] = &[
